@@ -97,6 +97,7 @@ type FuncResult struct {
 	Errors   []string // generator errors (out of subset etc.)
 	Paths    int
 	Returns  int // paths reaching a normal return
+	TrivialPost int // postconditions that simplified to true during generation
 	oblNames map[string]int
 	Bounded  bool
 }
@@ -360,7 +361,12 @@ func (e *Engine) assumeQuiet(st *State, t *Term) {
 
 var trivialCounts = map[string]int{}
 
-func (fr *FuncResult) trivial(kind string) {}
+func (fr *FuncResult) trivial(kind string) {
+	// an obligation whose goal simplified to true during generation (e.g. "result == nil" at "return nil")
+	if kind == "post" {
+		fr.TrivialPost++
+	}
+}
 
 func (e *Engine) genError(format string, args ...interface{}) {
 	msg := fmt.Sprintf(format, args...)
